@@ -15,6 +15,8 @@ CONSTANTS
   SearchTokens <- K_SearchTokens
   MaxSearch = 2
   SearchSels <- K_SearchSels
+  SearchShapes <- K_SearchShapes
+  DeepNames6 <- K_DeepNames
   Views6 <- K_Views6
   Kinds6 <- K_Kinds6
   Inner6 <- K_Inner6
@@ -22,4 +24,5 @@ CONSTANTS
 INVARIANT EntriesAgree
 INVARIANT SearchesArrive
 INVARIANT TreesAgree
+INVARIANT OnlyKnownCaptures
 CHECK_DEADLOCK FALSE
